@@ -79,6 +79,8 @@ def build_run(rng):
         if reserved:
             data["time"] = 100.0 + k
             ts["time"] = 1.0
+            if k % 2 == 0:
+                filled["time"] = True   # (a 'filled' entry under a reserved name is renamed too - in a copy, not in the input)
         if style.startswith("legacy"):
             data["img"] = datums[k]["datum_id"]
             ts["img"] = 2.0
